@@ -411,6 +411,8 @@ NameCase(i) == [pos |-> NamePositions[((i - 1) % Len(NamePositions)) + 1], nm |-
 (* placeholders the harness fills in with the import paths of its workspace. *)
 ImpKinds == << "struct", "message", "enum", "union" >>
 ImpDep == << Co("string", "go_package", "\"@DEPPKG@\""),
+             \* (constants Go cannot write as constants: the generated file needs "math" for them)
+             Co("float64", "DepInf", "inf"), Co("float32", "DepNan", "nan"), Co("float64", "DepNegInf", "-inf"), Co("int32", "DepSeven", "7"),
              St("TB", << F("v", P("int64")), F("w", P("string")), F("d", P("date")), F("g", P("guid")) >>),   \* (types that make the GENERATED imported package import Go packages)
              Ms("MB", << FI(1, "t", R("TB")), FI(2, "n", P("int32")) >>),
              En("EB", "uint16", << Mem("X", "1", <<1,0>>), Mem("Y", "2", <<2,0>>) >>),
